@@ -324,6 +324,31 @@ pub type WirelessInteractionModel<
     const NE: usize = DEFAULT_MAX_EVENTS_BUF_SIZE,
 > = InteractionModel<'a, C, B, T, K, N, NC, R, NS, NE>;
 
+/// Hook for the out-of-tree verification harness. Compiled only with the
+/// `verif` feature; read-only, adds no behaviour.
+#[cfg(feature = "verif")]
+impl<'a, C, B, T, K, N, NC, R, const NS: usize, const NE: usize>
+    InteractionModel<'a, C, B, T, K, N, NC, R, NS, NE>
+where
+    B: Buffers<IMBuffer>,
+{
+    /// Visit every subscription in the table together with its stored
+    /// subscribe-request bytes (what a restarted node resumes). A subscription
+    /// which is being reported on right now is visited with empty request bytes.
+    pub fn verif_for_each_subscription<F>(&self, mut f: F)
+    where
+        F: FnMut(&crate::im::subscriptions::verif::SubSnapshot, &[u8]),
+    {
+        self.state
+            .subscriptions
+            .verif_for_each(&self.subscriptions_buffers, &mut f);
+
+        if let (_, Some(reporting), _) = self.state.subscriptions.verif_slots() {
+            f(&reporting, &[]);
+        }
+    }
+}
+
 impl<'a, C, B, T, K, N, const NS: usize, const NE: usize>
     InteractionModel<'a, C, B, T, K, N, NoopWirelessNetCtl, (), NS, NE>
 where
